@@ -109,7 +109,11 @@ def edit_in_place(geom, rng) -> None:
     """Give an existing geometry object other coordinates by attribute assignment (what an interactive
     annotation tool does when a box is dragged). The new coordinates are valid and in normal form."""
     other = build(random_geom(rng, geom.type, rng.choice(["dyadic", "realistic"])), how="dict")
-    geom.coordinates = other.coordinates
+    if isinstance(geom.coordinates, list) and rng.random() < 0.5:
+        # the coordinate list itself is edited (a vertex dragged, a point appended): same list object, new content
+        geom.coordinates[:] = other.coordinates
+    else:
+        geom.coordinates = other.coordinates
 
 
 def _tuples(c):
